@@ -1227,7 +1227,7 @@ def run(rep):
         f_gen = pool.submit(tlc.run, "Losses", tlc.cfg_text(constants=dict(base, EMIT=True)), workers=1, tag="losses-gen", timeout=1500)
         f_inv3 = None
         if not quick:  # batches of three rows for the kinds whose small row lattice allows it (the others: random walks below)
-            c3 = dict(base, NSet={3}, Kinds={"ddpg", "td3", "lap", "td7", "enc"})
+            c3 = dict(base, NSet={3}, Kinds={"td3", "lap", "td7", "enc"})
             f_inv3 = pool.submit(tlc.run, "Losses", tlc.cfg_text(constants=c3, invariants=INVS), workers=workers, tag="losses-inv3", timeout=3000)
         f_sim = []
         for si, s in enumerate(sims):
@@ -1247,7 +1247,7 @@ def run(rep):
     rep.add_tlc(g, "Losses small lattice: generation")
     if f_inv3 is not None:
         r3 = f_inv3.result()
-        rep.add_tlc(r3, "Losses small lattice N=3 (ddpg td3 lap td7 enc): invariants")
+        rep.add_tlc(r3, "Losses small lattice N=3 (td3 lap td7 enc): invariants")
         if not r3.ok:
             rep.violation(f"spec:Losses:{r3.violated}", f"design-level violation of {r3.violated} (N=3)", r3.error_trace)
     vectors = list(g.emitted)
